@@ -35,9 +35,10 @@ type Item struct {
 	Else     []Item            // if-else
 	Arms     map[string][]Item // switch: constant name -> items
 	Cond     string
-	CondExpr ast.Expr // the condition of an if item
-	Skips    bool     // if item: the body ends the iteration (continue)
-	Expr     ast.Expr // the operand expression (scalars and byte strings)
+	CondExpr ast.Expr     // the condition of an if item
+	Skips    bool         // if item: the body ends the iteration (continue)
+	Expr     ast.Expr     // the operand expression (scalars and byte strings)
+	Alt      []*types.Var // reader: further fields the same wire value is stored into
 	// ConstWidth: for pads/bytes of constant size
 }
 
@@ -183,7 +184,13 @@ func (x *extractor) takePos(obj types.Object, at token.Pos, hi int) ([]Item, boo
 			x.problems = append(x.problems, fmt.Sprintf("positional buffer %s: bytes %d..%d are not described (or described twice) at %s", obj.Name(), next, p.off, x.f.w.Pos(at)))
 		}
 		if p.nest != x.nest {
-			x.problems = append(x.problems, fmt.Sprintf("positional buffer %s is filled under another condition than it is transferred at %s", obj.Name(), x.f.w.Pos(at)))
+			// a scratch buffer that lives across the iterations of the loop it is transferred in keeps what the
+			// previous iteration wrote: a position written only under a condition is stale on the other paths
+			if l := enclosingLoop(x.f.Decl.Body, posAsNode(at)); l != nil && obj.Pos() < l.Pos() {
+				x.problems = append(x.problems, fmt.Sprintf("STALE: the scratch buffer %s is declared outside the loop that fills and transfers it (%s), and byte %d of it is written only under a condition: on the other paths the byte keeps the value the previous iteration left there (a flag set for one cell is written for every cell after it)", obj.Name(), x.f.w.Pos(at), p.off))
+			} else {
+				x.problems = append(x.problems, fmt.Sprintf("positional buffer %s is filled under another condition than it is transferred at %s", obj.Name(), x.f.w.Pos(at)))
+			}
 		}
 		next = p.off + p.it.Width
 		out = append(out, p.it)
@@ -310,6 +317,14 @@ func (x *extractor) ioItem(call *ast.CallExpr) (Item, bool, bool) {
 		if sl, ok := t.Underlying().(*types.Slice); ok {
 			if w := basicWidth(sl.Elem()); w > 0 {
 				return Item{Kind: itLoop, Cond: "whole-slice", Pos: call.Pos(), Body: []Item{{Kind: itScalar, Width: w, Field: x.fieldOf(arg), Ref: exprKey(arg) + "[i]", Pos: call.Pos(), Expr: arg}}}, true, true
+			}
+		}
+		// a struct of fixed-width fields written or read in one call is its fields in declaration order; which
+		// field of the node each one carries is read off the statements that fill the struct (writer) or copy
+		// out of it (reader)
+		if st, ok := t.Underlying().(*types.Struct); ok {
+			if items, ok := x.structItems(arg, st, call.Pos()); ok {
+				return Item{Kind: itLoop, Ref: "splice", Body: items, Pos: call.Pos(), Cond: "splice"}, true, true
 			}
 		}
 		x.problems = append(x.problems, "binary I/O of unsupported type "+t.String()+" at "+f.w.Pos(call.Pos()))
@@ -728,6 +743,11 @@ func compareGrammars(w, r []Item, path string) string {
 			if a.Field != nil && b.Field != nil && a.Field != b.Field {
 				return fmt.Sprintf("%s: writer emits field %s, reader stores it into field %s", at, a.Field.Name(), b.Field.Name())
 			}
+			for _, alt := range b.Alt {
+				if a.Field != nil && alt != a.Field {
+					return fmt.Sprintf("%s: writer emits field %s, reader stores it into field %s as well", at, a.Field.Name(), alt.Name())
+				}
+			}
 		case itBytes:
 			if a.Field != nil && b.Field != nil && a.Field != b.Field {
 				return fmt.Sprintf("%s: writer emits bytes of %s, reader stores them into %s", at, a.Field.Name(), b.Field.Name())
@@ -794,6 +814,12 @@ func checkCodecPair(c *Ctx, rule, wname, rname string) ([]Item, []Item) {
 	wi, wp := Grammar(wf, true, wstream)
 	ri, rp := Grammar(rf, false, nil)
 	if len(wp)+len(rp) > 0 {
+		for _, p := range append(append([]string{}, wp...), rp...) {
+			if strings.HasPrefix(p, "STALE: ") {
+				c.FailConfined(rule, key+"|scratch-buffer", wf.Decl.Pos(), "%s", strings.TrimPrefix(p, "STALE: "))
+				return wi, ri
+			}
+		}
 		c.Undecided(rule, key, "unrecognised I/O construct: %s", strings.Join(append(wp, rp...), "; "))
 		return wi, ri
 	}
@@ -802,6 +828,11 @@ func checkCodecPair(c *Ctx, rule, wname, rname string) ([]Item, []Item) {
 		return wi, ri
 	}
 	if d := compareGrammars(wi, ri, "stream"); d != "" {
+		if strings.Contains(d, "reader stores it into field") || strings.Contains(d, "reader stores them into") {
+			// both fields positively identified and different: reported in a restructured function as well
+			c.FailConfined(rule, key, wf.Decl.Pos(), "writer and reader disagree: %s. writer grammar: %s ; reader grammar: %s", d, itemsString(wi), itemsString(ri))
+			return wi, ri
+		}
 		c.Fail(rule, key, wf.Decl.Pos(), "writer and reader disagree: %s. writer grammar: %s ; reader grammar: %s", d, itemsString(wi), itemsString(ri))
 	} else {
 		c.OK(rule, key, wf.Decl.Pos(), countItems(wi), "grammars equal: %s", itemsString(wi))
@@ -939,3 +970,132 @@ func namedTypeIsStd(t types.Type, pkg, name string) bool {
 	n, ok := t.(*types.Named)
 	return ok && n.Obj().Pkg() != nil && n.Obj().Pkg().Path() == pkg && n.Obj().Name() == name
 }
+
+// structItems: the wire items of a struct value handed to binary.Read / binary.Write as a whole.
+func (x *extractor) structItems(arg ast.Expr, st *types.Struct, pos token.Pos) ([]Item, bool) {
+	f := x.f
+	e := ast.Unparen(arg)
+	if u, ok := e.(*ast.UnaryExpr); ok && u.Op == token.AND {
+		e = ast.Unparen(u.X)
+	}
+	var obj types.Object
+	var lit *ast.CompositeLit
+	switch y := e.(type) {
+	case *ast.Ident:
+		obj = f.ObjOf(y)
+	case *ast.CompositeLit:
+		lit = y
+	default:
+		return nil, false
+	}
+	type src struct {
+		fields []*types.Var
+		ref    string
+		expr   ast.Expr
+	}
+	m := map[string]*src{}
+	add := func(name string, other ast.Expr) {
+		s := m[name]
+		if s == nil {
+			s = &src{}
+			m[name] = s
+		}
+		if v := x.fieldOf(other); v != nil {
+			dup := false
+			for _, o := range s.fields {
+				if o == v {
+					dup = true
+				}
+			}
+			if !dup {
+				s.fields = append(s.fields, v)
+			}
+		}
+		s.ref, s.expr = exprKey(other), other
+	}
+	fromLit := func(l *ast.CompositeLit) {
+		for i, el := range l.Elts {
+			if kv, ok := el.(*ast.KeyValueExpr); ok {
+				if k, ok := kv.Key.(*ast.Ident); ok {
+					add(k.Name, kv.Value)
+				}
+			} else if i < st.NumFields() {
+				add(st.Field(i).Name(), el)
+			}
+		}
+	}
+	if lit != nil {
+		fromLit(lit)
+	}
+	if obj != nil {
+		ast.Inspect(f.Decl.Body, func(n ast.Node) bool {
+			switch y := n.(type) {
+			case *ast.AssignStmt:
+				for i, l := range y.Lhs {
+					var rhs ast.Expr
+					if len(y.Rhs) == len(y.Lhs) {
+						rhs = y.Rhs[i]
+					}
+					// hdr := T{…}
+					if id, ok := ast.Unparen(l).(*ast.Ident); ok && f.ObjOf(id) == obj && rhs != nil {
+						r := ast.Unparen(rhs)
+						if u, ok := r.(*ast.UnaryExpr); ok && u.Op == token.AND {
+							r = ast.Unparen(u.X)
+						}
+						if cl, ok := r.(*ast.CompositeLit); ok && x.writer {
+							fromLit(cl)
+						}
+					}
+					// hdr.F = n.x   (writer)
+					if sel, ok := ast.Unparen(l).(*ast.SelectorExpr); ok && x.writer && rhs != nil {
+						if id, ok := ast.Unparen(sel.X).(*ast.Ident); ok && f.ObjOf(id) == obj {
+							add(sel.Sel.Name, rhs)
+						}
+					}
+					// n.x = hdr.F   (reader)
+					if !x.writer && rhs != nil {
+						if sel, ok := ast.Unparen(f.stripConv(rhs)).(*ast.SelectorExpr); ok {
+							if id, ok := ast.Unparen(sel.X).(*ast.Ident); ok && f.ObjOf(id) == obj {
+								add(sel.Sel.Name, l)
+							}
+						}
+					}
+				}
+			case *ast.ValueSpec:
+				for i, nm := range y.Names {
+					if f.ObjOf(nm) == obj && i < len(y.Values) && x.writer {
+						if cl, ok := ast.Unparen(y.Values[i]).(*ast.CompositeLit); ok {
+							fromLit(cl)
+						}
+					}
+				}
+			}
+			return true
+		})
+	}
+	var items []Item
+	for i := 0; i < st.NumFields(); i++ {
+		fld := st.Field(i)
+		wd := basicWidth(fld.Type())
+		if wd == 0 {
+			return nil, false
+		}
+		it := Item{Kind: itScalar, Width: wd, Ref: fld.Name(), Pos: pos}
+		if s := m[fld.Name()]; s != nil {
+			it.Ref, it.Expr = s.ref, s.expr
+			if len(s.fields) > 0 {
+				it.Field = s.fields[0]
+				it.Alt = s.fields[1:]
+			}
+		}
+		items = append(items, it)
+	}
+	return items, true
+}
+
+// posAsNode: a position as a node (for enclosingLoop).
+type posNode token.Pos
+
+func (p posNode) Pos() token.Pos     { return token.Pos(p) }
+func (p posNode) End() token.Pos     { return token.Pos(p) }
+func posAsNode(p token.Pos) ast.Node { return posNode(p) }
